@@ -1052,7 +1052,7 @@ pub fn spec() -> PropSpec {
     PropSpec {
         id: "C09",
         level: "exploration",
-        rule: "histories of 1..25 operations over peer messages {connect (3 apps, trailing '/', objectEncoding), createStream, publish (created / zero / unknown stream, 3 short keys and rarely a 65500-byte key, modes live/record/append/LIVE/bogus), play (0..3 optional arguments), closeStream, deleteStream, audio, video, @setDataFrame, ping, unknown commands, 11 kinds of malformed argument lists, peer chunk-size change} and application calls {accept / reject with an outstanding, already-used or never-issued id, send audio/video/metadata, finish_playing}; peer messages are encoded by the reference peer and delivered whole or cut in two. Half of the histories start behind an accepted connect + createStream. Plus the bounded-exhaustive enumeration of ALL sequences of length <= 4 (quick) / <= 5 (thorough) over a fixed 13-letter alphabet, from scratch and behind an accepted connect. ModelServer judges clauses (a)-(f) of DESIGN.md C09 and follows the observation where the statement is silent; refused calls are additionally checked by a twin run without them. Non-trivial = the history contains an accepted connect and (a request out of protocol order, or a stale/forged request id, or media on a stream without an accepted publish); distinct = distinct history",
+        rule: "histories of 1..25 operations over peer messages {connect (3 apps, trailing '/', objectEncoding), createStream, publish (created / zero / unknown stream, 3 short keys and rarely a 65500-byte key, modes live/record/append/LIVE/bogus), play (0..3 optional arguments), closeStream, deleteStream, audio, video, @setDataFrame, ping, unknown commands, 11 kinds of malformed argument lists, peer chunk-size change} and application calls {accept / reject with an outstanding, already-used or never-issued id, send audio/video/metadata, finish_playing}; peer messages are encoded by the reference peer and delivered whole or cut in two. Half of the histories start behind an accepted connect + createStream; sessions are aged 0 / 50 / 1234 / 70000 / 16777300 ms by history length and their configuration (onBWDone flag, window, bandwidth, version string) varies with the chunk size; createStream transaction ids include 0, 2^32, 2^53, 0.5, -1; metadata is a fresh draw or one of three fixed descriptions; one application name and one key are not ASCII. Sub-check 'many-undecided-requests': 15..300 publish / play requests surfaced before any is decided. Plus the bounded-exhaustive enumeration of ALL sequences of length <= 4 (quick) / <= 5 (thorough) over a fixed 13-letter alphabet, from scratch and behind an accepted connect. ModelServer judges clauses (a)-(f) of DESIGN.md C09 and follows the observation where the statement is silent; refused calls are additionally checked by a twin run without them. Non-trivial = the history contains an accepted connect and (a request out of protocol order, or a stale/forged request id, or media on a stream without an accepted publish); distinct = distinct history",
         assumptions: vec![
             "ModelServer is written from the statement; where it is silent (second connect with another app, createStream before connect, play accepted on a publishing stream or vice versa, requests on never-created streams, bogus publish mode, close after finish_playing, malformed messages) nothing is asserted and the model follows the observation",
             "each peer message is delivered in its own call(s) so that an Err (which discards the results of its call) loses only that message's observations",
